@@ -221,7 +221,7 @@ func UfMaxDeclared(b []byte) (max int, sum int) {
 		}
 		t := w.b[w.off]
 		w.off += 3
-		w.value(t, 64)
+		w.value(t, 80) // deeper than any depth limit of the code: the guard must see every size the code can reach
 	}
 	return w.max, w.sum
 }
